@@ -47,9 +47,14 @@ pub struct Written {
 
 /// Run a program that is expected to be accepted. Reports violations (panic / unexpected Err).
 pub fn write_valid(ctx: &Ctx, p: &Program, prop: &str) -> Option<Written> {
+    write_valid_opts(ctx, p, prop, &ExecOpts::default())
+}
+
+/// `write_valid` with the payload sources (blob, image and mask data) delivering short reads
+pub fn write_valid_opts(ctx: &Ctx, p: &Program, prop: &str, opts: &ExecOpts) -> Option<Written> {
     let dev = Dev::empty();
     let h = dev.handle();
-    let run = run_program(dev, p, &ExecOpts::default());
+    let run = run_program(dev, p, opts);
     ctx.ops(run.api_calls);
     if let Some((i, pi)) = &run.panic {
         ctx.violation(
@@ -142,6 +147,15 @@ pub fn read_and_compare(ctx: &Ctx, p: &Program, w: &Written, prop: &str, with_bo
         }
     }
     Some(rb)
+}
+
+/// round trip with payload sources that deliver their data in short reads
+pub fn roundtrip_src(ctx: &Ctx, p: &Program, prop: &str, chunk: crate::dev::Chunk) -> Option<(Written, ReadBack)> {
+    ctx.describe(|| format!("{} [payload sources read with {chunk:?}]", describe(p)));
+    let w = write_valid_opts(ctx, p, prop, &ExecOpts { src_chunk: chunk, ctx: None })?;
+    let rb = read_and_compare(ctx, p, &w, prop, None)?;
+    ctx.observe(&w.bytes);
+    Some((w, rb))
 }
 
 pub fn roundtrip(ctx: &Ctx, p: &Program, prop: &str) -> Option<(Written, ReadBack)> {
